@@ -78,14 +78,62 @@ def pools(seed, n=24):
     return valid, synbad, sembad
 
 
-def out_digest(d):
-    db, err = parse(d['text'], allow_properties=d['props'])
+def _dig(db):
+    return 'OK:' + digest([walk.content(db), db.dbml, db.sql, db.sql_renderer.__name__, db.dbml_renderer.__name__, db.allow_properties])
+
+
+def out_digest(d, route='parse'):
+    """outcome of one document; route: 'parse' (PyDBML(text, allow_properties=...)), and for documents without the option also
+    'parse_file' (a path) and 'parser' (the parser class used directly): entry points that pass no options at all"""
+    if route == 'parse' or d['props']:
+        db, err = parse(d['text'], allow_properties=d['props'])
+    else:
+        try:
+            if route == 'parse_file':
+                import tempfile
+                from pydbml import PyDBML
+                fd, pth = tempfile.mkstemp(suffix='.dbml', dir=os.environ.get('PV_SCRATCH') or None)
+                try:
+                    with os.fdopen(fd, 'w', encoding='utf8', newline='') as f:
+                        f.write(d['text'])
+                    db, err = PyDBML.parse_file(pth), None
+                finally:
+                    os.unlink(pth)
+            else:
+                from pv.common import parser_class
+                cls_ = parser_class()
+                db, err = (cls_(d['text']).parse(), None) if cls_ is not None else parse(d['text'])
+        except Exception as e:  # noqa
+            db, err = None, e
     if err is not None:
         return 'EXC:' + type(err).__name__, None
     try:
-        return 'OK:' + digest([walk.content(db), db.dbml, db.sql]), db
+        return _dig(db), db
     except Exception as e:  # noqa
         return 'RENDER-EXC:' + type(e).__name__, db
+
+
+def custom_parse(d, rng):
+    """a parse with non-default options (renderer subclasses, arbitrary properties) through a randomly chosen entry point"""
+    from pydbml import PyDBML
+    from pydbml.renderer.sql.default import DefaultSQLRenderer
+    from pydbml.renderer.dbml.default import DefaultDBMLRenderer
+    S = type('HistSQL', (DefaultSQLRenderer,), {})
+    D = type('HistDBML', (DefaultDBMLRenderer,), {})
+    try:
+        how = rng.choice(['ctor', 'parse', 'parser'])
+        if how == 'ctor':
+            db = PyDBML(d['text'], allow_properties=True, sql_renderer=S, dbml_renderer=D)
+        elif how == 'parse':
+            db = PyDBML.parse(d['text'], allow_properties=True, sql_renderer=S, dbml_renderer=D)
+        else:
+            from pv.common import parser_class
+            cls_ = parser_class()
+            db = cls_(d['text'], allow_properties=True, sql_renderer=S, dbml_renderer=D).parse() if cls_ is not None else None
+        if db is not None:
+            db.sql, db.dbml
+    except Exception:  # noqa
+        pass
 
 
 # --------------------------------------------------------------------------- grammar fingerprint (M4)
@@ -138,19 +186,27 @@ def mon_history(sh, seed, i, tier, valid, synbad, sembad):
         L = rng.randint(1, 6)
         hist = []
         for _ in range(L):
-            pool = rng.choice([valid, synbad, sembad, sembad])
+            pool = rng.choice([valid, synbad, sembad, sembad, 'custom'])
+            if pool == 'custom':
+                j = rng.randrange(len(valid))
+                hist.append(('c', j))
+                custom_parse(valid[j], rng)         # an earlier call with other renderer classes / the option on
+                sh.count('obs.history_steps_with_custom_options')
+                continue
             j = rng.randrange(len(pool))
             hist.append(('v' if pool is valid else 's' if pool is synbad else 'm', j))
             out_digest(pool[j])
         k = rng.randrange(len(fixed))
-        got = out_digest(fixed[k])[0]
+        route = rng.choice(['parse', 'parse_file', 'parser'])
+        got = out_digest(fixed[k], route)[0]
+        sh.count('obs.history_then_route.' + route)
         sh.case(['hist', hist, k], nontrivial=True, sample={'monitor': 'history', 'history': hist, 'then_document': k, 'outcome': got[:20]})
         sh.count('obs.histories')
         if got != ref[k]:
             sh.violation('history', 'history:outcome-depends-on-earlier-parses', f'after {hist}: document {k} gives {got[:30]}, fresh {ref[k][:30]}',
                          {'kind': 'hist', 'history': hist, 'doc': fixed[k]})
         # repeated parse: determinism in-process
-        if out_digest(fixed[k])[0] != got:
+        if out_digest(fixed[k], route)[0] != got:
             sh.violation('determinism', 'determinism:repeated-parse-differs', f'document {k} parsed twice in a row differs', {'kind': 'hist', 'doc': fixed[k]})
         if h % 4 == 0:
             fp = grammar_fingerprint()
@@ -200,7 +256,7 @@ def mon_filehistory(sh, seed, i, tier, valid):
                 want = out_digest({'text': text2, 'props': False})[0]
                 try:
                     db = th()
-                    got = 'OK:' + digest([walk.content(db), db.dbml, db.sql])
+                    got = _dig(db)
                 except Exception as e:  # noqa
                     got = 'EXC:' + type(e).__name__
                 sh.case(['filehist', h, name], nontrivial=True, sample={'monitor': 'file-history', 'route': name})
@@ -235,7 +291,7 @@ def mon_interleaved(sh, seed, i, tier, valid):
     rng = random.Random(f'{seed}-inter-{i}')
 
     def dig(db):
-        return 'OK:' + digest([walk.content(db), db.dbml, db.sql])
+        return _dig(db)
 
     def run(p):
         try:
@@ -418,11 +474,18 @@ def run_workers(sh, seed, i, tier, valid, synbad, sembad):
             sh.states.add(f'{s[0]}-{s[1]}')
             sh.count('obs.thread_switch_points', s[0])
         for rr in res['results']:
+            if rr.get('stuck'):
+                sh.violation('schedule', f'schedule:parse-never-returns:{mode}', f'{mode}/{perturb}: threads {rr["stuck"]} sat at the same instruction for 8 s after a 90 s wait '
+                             f'(documents {[rr["idx"][k_] for k_ in rr["stuck"]]}); outcomes of the others: {[str(o_)[:20] for o_ in rr["out"]]}',
+                             {'kind': 'sched', 'spec': spec}, {'mode': mode, 'perturb': perturb})
+                continue
             if rr['hung']:
                 sh.inconclusive.append(f'threads {rr["hung"]} did not finish in worker {i}/{r}')
             for k, (o, di) in enumerate(zip(rr['out'], rr['idx'])):
                 sh.count('obs.concurrent_parses')
                 want = res['seq'][di]
+                if want is None:
+                    continue
                 if o != want:
                     kindk = 'valid-document-rejected' if want.startswith('OK') and str(o).startswith('EXC') else 'outcome-differs'
                     sh.violation('schedule', f'schedule:{kindk}:{mode}', f'{mode}/{perturb}: thread {k}: concurrent {str(o)[:40]} vs sequential {want[:40]}',
